@@ -173,7 +173,30 @@ Definition RefText (w : world) (i : id) (p : list N) : Prop :=
   exists n, w_nodes w i = Some n /\ is_ref T (n_type n) = Val true /\
             character_data T n = Val (Some (DString p)).
 
+(* ---------- registration in the path index, in terms of the model's own queries ---------- *)
+(* Element::is_identifiable answers true *)
+Definition IsIdent (w : world) (i : id) : Prop :=
+  exists n, w_nodes w i = Some n /\ is_identifiable T n w = Val (OK true, w).
+(* the path segment an element contributes: "/" + item name when it is identifiable and has one, else nothing *)
+Definition SegOf (w : world) (i : id) (s : list N) : Prop :=
+  exists n b, w_nodes w i = Some n /\ is_identifiable T n w = Val (OK b, w) /\
+    ((b = false /\ s = []) \/
+     (b = true /\ exists o, item_name T n w = Val (OK o, w) /\ s = match o with Some x => [47] ++ x | None => [] end)).
+(* j is reached from i through content lists; q = the segments of i, ..., j *)
+Inductive RPath (w : world) : id -> id -> list N -> Prop :=
+| RP_here i s : SegOf w i s -> RPath w i i s
+| RP_down i n c j s q : SegOf w i s -> w_nodes w i = Some n -> In (CElem c) (n_content n) -> RPath w c j q ->
+    RPath w i j (s ++ q).
+(* no two identifiable elements below i have the same relative path (in particular: no identifiable element without
+   item name below an identifiable one — known finding C13-copy-nameless-shortname) *)
+Definition UniqueRel (w : world) (i : id) : Prop :=
+  forall j1 j2 q, RPath w i j1 q -> RPath w i j2 q -> IsIdent w j1 -> IsIdent w j2 -> j1 = j2.
+
 End Defs.
+
+(* get_element_by_path(k) = j in model m *)
+Definition HasId (w : world) (m : N) (k : list N) (j : id) : Prop :=
+  exists x, nth_opt (w_models w) (N.to_nat m) = Some x /\ assoc_get k (m_idents x) = Some j.
 
 (* i is listed among the referrers of path p in model m (get_references_to) *)
 Definition HasOrigin (w : world) (m : N) (p : list N) (i : id) : Prop :=
